@@ -133,5 +133,10 @@ let handle (cmd : string) (args : t list) : t option =
     Some (L (List.map (fun (k, _) -> s k) (an_scan_anchors (node_of_sexp d) [])))
   | "unique-anchor", [a; L known] ->
     Some (m_outcome s (calc_unique_anchor (str_atom a) (List.map str_atom known)))
+  | "c10-guard", [l; r] ->
+    (* the computable guards of the C10 theorems (Spec/SpecC10.v), evaluated on the case *)
+    let l = node_of_sexp l and r = node_of_sexp r in
+    Some (L [A "guard"; bs (an_doc_tidy l); bs (an_doc_tidy r); bs (one_node_per_name_b l);
+             bs (one_node_per_name_b r); bs (an_heap_ok_b r); bs (keys_plain l); bs (keys_plain r)])
   | "node-eq", [a; b] -> Some (bs (node_eq (node_of_sexp a) (node_of_sexp b)))
   | _ -> None
